@@ -908,8 +908,7 @@ func (fv *FV) binary(e *Env, x *ast.BinaryExpr) Value {
 		return fv.arith(e, x, x.Op.String(), a.T, b.T, t)
 	}
 	if a.T.Sort == sStr && x.Op == token.ADD {
-		fv.s.declFun("str_cat", []string{sStr, sStr}, sStr)
-		return Value{K: kScalar, T: app(sStr, "str_cat", a.T, b.T), Type: t}
+		return Value{K: kScalar, T: fv.strCat(a.T, b.T), Type: t}
 	}
 	return fv.unknown(t, "binary "+x.Op.String())
 }
@@ -1935,4 +1934,14 @@ func isMapInit(x ast.Expr) bool {
 		return true
 	}
 	return false
+}
+
+// strCat is string concatenation: uninterpreted, with its length.
+func (fv *FV) strCat(a, b Term) Term {
+	fv.s.declFun("str_cat", []string{sStr, sStr}, sStr)
+	fv.s.declFun("str_len", []string{sStr}, sInt)
+	r := app(sStr, "str_cat", a, b)
+	fv.s.assume(and(eq(app(sInt, "str_len", r), add(app(sInt, "str_len", a), app(sInt, "str_len", b))),
+		le(intLit(0), app(sInt, "str_len", a)), le(intLit(0), app(sInt, "str_len", b))))
+	return r
 }
